@@ -163,7 +163,12 @@ func (vhost *VirtualHost) GetQueue(name string) *queue.Queue {
 func (vhost *VirtualHost) GetQueues() map[string]*queue.Queue {
 	vhost.quLock.RLock()
 	defer vhost.quLock.RUnlock()
-	return vhost.queues
+	// a copy: the caller ranges over it while queues come and go
+	queues := make(map[string]*queue.Queue, len(vhost.queues))
+	for name, qu := range vhost.queues {
+		queues[name] = qu
+	}
+	return queues
 }
 
 func (vhost *VirtualHost) getQueue(name string) *queue.Queue {
@@ -182,7 +187,13 @@ func (vhost *VirtualHost) getExchange(name string) *exchange.Exchange {
 }
 
 func (vhost *VirtualHost) GetExchanges() map[string]*exchange.Exchange {
-	return vhost.exchanges
+	vhost.exLock.RLock()
+	defer vhost.exLock.RUnlock()
+	exchanges := make(map[string]*exchange.Exchange, len(vhost.exchanges))
+	for name, ex := range vhost.exchanges {
+		exchanges[name] = ex
+	}
+	return exchanges
 }
 
 // GetDefaultExchange returns default exchange
